@@ -9,6 +9,9 @@ package main
 // conditional analysis exists and reads the action edits of both escapers.
 
 import (
+	"go/types"
+	"strings"
+
 	"golang.org/x/tools/go/ssa"
 )
 
@@ -54,6 +57,19 @@ func checkRangeReentryAgreement(p *Program, r *Report, rule string) {
 			case *ssa.Function:
 				body = y
 			}
+			// a bound method value: the method behind the wrapper
+			bound := false
+			if body != nil && strings.HasPrefix(body.Synthetic, "bound method wrapper") {
+				var m *ssa.Function
+				for _, bb := range body.Blocks {
+					for _, ins := range bb.Instrs {
+						if cl, ok := ins.(*ssa.Call); ok {
+							m = staticCallee(cl.Common())
+						}
+					}
+				}
+				body, bound = m, true
+			}
 			if body == nil {
 				r.Viol(rule, c, p.Pos(in.Pos()), "the second analysis of a range body is discarded without being compared with the first: every action keeps the sanitizers chosen for the first iteration although later iterations may need others — <a href=\"/x/{{range .L}}{{.}}?{{end}}\"> only normalises the second item, which lies in the query and can add '&', '=' and '#'", "")
 				continue
@@ -84,6 +100,55 @@ func checkRangeReentryAgreement(p *Program, r *Report, rule string) {
 				}
 			}
 			visit(body, 0)
+			// what the callback finds out must reach escapeBranch: it answers with a computed result, or writes a
+			// variable it captured, or a field behind a pointer it was bound to — not a field of its own copy of a
+			// value receiver
+			visible := false
+			for _, ret := range Returns(body) {
+				for _, rv := range ret.Results {
+					if _, isK := rv.(*ssa.Const); !isK {
+						visible = true
+					}
+				}
+			}
+			for _, bb := range body.Blocks {
+				for _, ins := range bb.Instrs {
+					st, ok := ins.(*ssa.Store)
+					if !ok {
+						continue
+					}
+					root := st.Addr
+					for i := 0; i < 6; i++ {
+						switch y := root.(type) {
+						case *ssa.FieldAddr:
+							root = y.X
+							continue
+						case *ssa.IndexAddr:
+							root = y.X
+							continue
+						}
+						break
+					}
+					switch y := root.(type) {
+					case *ssa.FreeVar:
+						visible = true
+					case *ssa.Parameter:
+						if _, isPtr := y.Type().Underlying().(*types.Pointer); isPtr && !isNamed(y.Type(), pkgTemplate, "escaper") {
+							visible = true
+						}
+					case *ssa.UnOp:
+						// a pointer loaded from a captured variable or from the bound receiver
+						if _, isFV := y.X.(*ssa.FreeVar); isFV {
+							visible = true
+						}
+					}
+				}
+			}
+			_ = bound
+			if len(bases) >= 2 && !visible {
+				r.Viol(rule, c+"#recorded", p.Pos(in.Pos()), "the acceptance callback of the range re-entry analysis compares the two analyses but what it finds is lost: it answers with a constant and writes only its own locals (a method with a value receiver updates a copy of the struct it is bound to), so escapeBranch never learns that later iterations need other sanitizers", "")
+				continue
+			}
 			r.Check(len(bases) >= 2, rule, c, p.Pos(in.Pos()), "the discarded second analysis of a range body is compared with the first: actions must get the same sanitizers in both", "the acceptance callback of the range re-entry analysis does not compare the action edits of the two analyses")
 		}
 	}
